@@ -161,11 +161,87 @@ class PolicyRandom(Slice):
             yield dict(case, hist=h[:i] + h[i + 1:])
 
 
+class PolicyInCache(Slice):
+    """the policy as the cache sets use it: which block a fill displaces, per set, must follow THAT
+    set's own access history (reads through a multi-set data cache and through the generic Cache)"""
+    name = "policy-in-cache"
+    promote_disagreement = True
+
+    def gen(self, rng, index, tier):
+        import cache_exec as C
+        ib = rng.choice([1, 1, 2, 3])
+        bb = rng.choice([0, 0, 1])
+        plru = rng.random() < 0.5
+        assoc = rng.choice([2, 4, 8]) if plru else rng.choice([2, 3, 4, 5])
+        cfg = [ib, bb, assoc, 1 if plru else 0, rng.choice([0, 1]), 0]
+        stride = (1 << ib) * (1 << bb) * 4
+        ops = []
+        for _ in range(rng.randrange(4, 60)):
+            st = rng.randrange(1 << ib)
+            tag = rng.randrange(assoc + 2)
+            a = C.DATA + tag * stride + st * (1 << bb) * 4
+            ops.append([0, 32, a, 1] if rng.random() < 0.8 else [1, 32, a, rng.getrandbits(32), 0])
+        return {"cfg": cfg, "preload": [], "ops": ops}
+
+    def run(self, case, model):
+        import cache_exec as C
+        cfg, ops = case["cfg"], case["ops"]
+        ms, mem, pm = C.make_dcache(cfg, [])
+        nsets = 1 << cfg[0]
+        hist = [[] for _ in range(nsets)]            # per-set access history of way indices
+        tags = [[None] * cfg[2] for _ in range(nsets)]
+        findings, cl = [], {"plru" if cfg[3] else "lru", "sets:%d" % nsets}
+        for k, op in enumerate(ops):
+            full = op[2] % 2 ** 32
+            tag = full >> (cfg[0] + cfg[1] + 2)
+            st = (full >> (cfg[1] + 2)) & (nsets - 1)
+            allocate = op[0] == 0 or not cfg[4]
+            if tag in tags[st]:
+                hist[st].append(tags[st].index(tag))
+            elif allocate:
+                v = ref_plru(cfg[2], hist[st]) if cfg[3] else ref_lru_victim(cfg[2], hist[st])
+                if tags[st][v] is not None:
+                    cl.add("eviction")
+                tags[st][v] = tag
+                hist[st].append(v)
+            C.apply_op(ms, op)
+            for j, cs in enumerate(ms.cache.sets):
+                got = [b.decoded_address.tag if b.valid_bit else None for b in cs.blocks]
+                if got != tags[j]:
+                    findings.append(("violation", f"op {k} {op}: set {j} holds tags {got}, the policy applied to this set's own history gives {tags[j]}"))
+                    break
+                want_v = ref_plru(cfg[2], hist[j]) if cfg[3] else ref_lru_victim(cfg[2], hist[j])
+                if cs.replacement_strategy.get_next_to_replace() != want_v:
+                    findings.append(("violation", f"op {k}: set {j} would replace way {cs.replacement_strategy.get_next_to_replace()}, its own history says {want_v}"))
+                    break
+            if findings:
+                break
+        if not findings:
+            mt = model.call([50, cfg, [], ops])
+            if mt and C.directory(ms)[0] != [[ [list(b) if isinstance(b, list) else b for b in blocks], list(rep)] for blocks, rep in mt[-1][2][0]]:
+                d = C.first_diff(C.directory(ms)[0], mt[-1][2][0], "directory")
+                findings.append(("disagreement", f"final directory differs from the model: {d}"))
+        if len({(o[2] >> (cfg[1] + 2)) & (nsets - 1) for o in ops}) > 1:
+            cl.add("multi-set")
+        return findings[:2], cl
+
+    def nontrivial(self, classes):
+        return "eviction" in classes and "multi-set" in classes
+
+    def required_classes(self, tier):
+        return ["lru", "plru", "eviction", "multi-set"]
+
+    def shrink(self, case):
+        ops = case["ops"]
+        for i in range(len(ops) - 1, -1, -1):
+            yield dict(case, ops=ops[:i] + ops[i + 1:])
+
+
 def slices():
-    return [PolicyExhaustive(), PolicyRandom()]
+    return [PolicyExhaustive(), PolicyRandom(), PolicyInCache()]
 
 
 BUDGET = {
-    "quick": {"policy-exhaustive": "exhaustive", "policy-random": 1500},
-    "thorough": {"policy-exhaustive": "exhaustive", "policy-random": 30000},
+    "quick": {"policy-exhaustive": "exhaustive", "policy-random": 1500, "policy-in-cache": 600},
+    "thorough": {"policy-exhaustive": "exhaustive", "policy-random": 30000, "policy-in-cache": 20000},
 }
